@@ -220,6 +220,9 @@ pub const NAME_POOL: &[&str] = &[
     "framerate", "stereo", "encoder", "objectEncoding", "tcUrl", "flashVer", "type", "a", "b",
     "connect", "_result", "_error", "onStatus", "live", "NetStream.Play.Start",
     "NetStream.Publish.Start", "key", "stream", "é", "日本語", "😀",
+    // names that look like numbers / array indices (an ECMA array is an associative array whose
+    // keys are often decimal indices), booleans, or reserved words
+    "0", "1", "2", "10", "00", "-1", "1.5", "1e9", "2000000", "4294967296", "18446744073709551615", "NaN", "true", "null", "length", "__proto__",
 ];
 
 pub fn amf_string(too_long: bool, allow_empty: bool) -> BoxedStrategy<S> {
@@ -256,6 +259,21 @@ pub fn amf_string(too_long: bool, allow_empty: bool) -> BoxedStrategy<S> {
     }
 }
 
+/// A name that differs from `base` but that a sloppy implementation might identify with it.
+pub fn sibling_name(base: &str, sel: u8) -> Option<String> {
+    let s = match sel % 8 {
+        0 => base.to_uppercase(),
+        1 => base.to_lowercase(),
+        2 => format!("{}\0", base),
+        3 => format!("{} ", base),
+        4 => format!(" {}", base),
+        5 => base.chars().take(base.chars().count().saturating_sub(1)).collect(),
+        6 => base.replace('k', "\u{212A}").replace('a', "\u{430}"),
+        _ => format!("{}{}", base, base),
+    };
+    if s == base || s.is_empty() { None } else { Some(s) }
+}
+
 fn dedup_pairs(pairs: Vec<(S, V)>) -> Vec<(S, V)> {
     let mut seen = std::collections::HashSet::new();
     pairs
@@ -283,7 +301,26 @@ pub fn amf_value(cfg: AmfCfg) -> BoxedStrategy<V> {
     let chain = cfg.chain;
     let chain_leaf = prop_oneof![Just(V::Null), amf_number_bits().prop_map(V::Num), Just(V::Str(S::lit("x"))), Just(V::Obj(vec![])), Just(V::Arr(vec![]))];
     let tree = leaf.prop_recursive(cfg.max_depth, 24, 4, move |inner| {
-        let pairs = proptest::collection::vec((amf_string(too_long, empty_names), inner.clone()), 0..4)
+        // property names, sometimes with a SIBLING of an earlier name next to it: the same name in
+        // another case, with a trailing NUL / space, a prefix of it, or a look-alike - distinct
+        // names which an implementation that normalises, trims or truncates names would merge
+        let pairs = proptest::collection::vec((amf_string(too_long, empty_names), inner.clone(), any::<u8>()), 0..4)
+            .prop_map(|v| {
+                let mut out: Vec<(S, V)> = Vec::with_capacity(v.len());
+                for (name, val, sel) in v {
+                    if sel < 40 && !out.is_empty() {
+                        let base = out[(sel as usize) % out.len()].0.build();
+                        if base.len() <= 64 {
+                            if let Some(sib) = sibling_name(&base, sel) {
+                                out.push((S::lit(sib), val));
+                                continue;
+                            }
+                        }
+                    }
+                    out.push((name, val));
+                }
+                out
+            })
             .prop_map(dedup_pairs);
         // wide containers: element / property counts around powers of two and beyond 65535
         let wide_n = prop_oneof![pick(&[255u32, 256, 257, 1023, 1024, 1025, 4095, 4096, 4097, 65_535, 65_536, 70_000]), 258u32..3000];
@@ -500,6 +537,36 @@ impl SeqCfg {
     pub const DEFAULT: SeqCfg = SeqCfg { max_ops: 12, drop_pct: 15, force_pct: 10, chunk_change_pct: 10, len_cap: 6000 };
 }
 
+/// Long histories on ONE serializer that touch many message streams: n message streams carrying
+/// one video and one audio message each (an implementation that allocates something per message
+/// stream - a chunk stream id, a table slot - runs out of the small range somewhere), then more
+/// messages on earlier streams.
+pub fn msg_seq_many_msids() -> BoxedStrategy<Seq> {
+    (
+        pick(&[28u32, 29, 30, 57, 58, 59, 62, 63, 64, 65, 100, 160, 320, 700]),
+        prop_oneof![Just(1u32), Just(2u32), 3u32..1000, Just(0x0100_0000u32)],
+        any::<u32>(),
+        0u32..12,
+        pick(&[0u32, 1, 20, 40]),
+        proptest::collection::vec(any::<u16>(), 0..10),
+    )
+        .prop_map(|(n, stride, base, len, dts, revisit)| {
+            let msid_of = |i: u32| base.wrapping_add(i.wrapping_mul(stride));
+            let mut ops = Vec::new();
+            for i in 0..n {
+                for type_id in [9u8, 8] {
+                    ops.push(Op::Msg(MsgSpec { type_id, msid: msid_of(i), dts, len, fill: i, force: false, drop: false }));
+                }
+            }
+            for (k, f) in revisit.iter().enumerate() {
+                let i = ((*f as u64 * n as u64) >> 16) as u32;
+                ops.push(Op::Msg(MsgSpec { type_id: 8 + (k % 2) as u8, msid: msid_of(i), dts, len, fill: 9000 + k as u32, force: false, drop: false }));
+            }
+            Seq { ops }
+        })
+        .boxed()
+}
+
 pub fn msg_seq(cfg: SeqCfg) -> BoxedStrategy<Seq> {
     let palette = (
         proptest::collection::vec(type_id(), 1..=2),
@@ -589,6 +656,15 @@ pub fn foreign_ops(max_ops: usize, chunk_change_pct: u8, len_cap: u32) -> BoxedS
                 let msid = if sm < 85 { pm[ix(im, pm.len())] } else { om };
                 let dts = if sd < 85 { pd[ix(id, pd.len())] } else { od };
                 let len = if sl < 85 { pl[ix(il, pl.len())].clone() } else { ol };
+                // now and then a protocol control message whose CONTENT names a chunk stream in use:
+                // an Abort (type 2, payload = the chunk stream id; with nothing in flight it discards
+                // nothing and must leave that stream's header history alone)
+                if kind >= 97 {
+                    let named = ops.iter().rev().find_map(|o| if let FOp::Msg(m) = o { Some(m.csid) } else { None });
+                    if let Some(named) = named {
+                        ops.push(FOp::Msg(FMsg { csid: 2, want_fmt, three_byte: false, fmt0_cont: false, type_id: 2, msid: 0, dts: 0, len: 4, fill: named }));
+                    }
+                }
                 ops.push(FOp::Msg(FMsg {
                     csid,
                     want_fmt,
@@ -613,7 +689,7 @@ pub fn foreign_ops(max_ops: usize, chunk_change_pct: u8, len_cap: u32) -> BoxedS
 /// implementation limits).
 pub fn foreign_ops_many_streams() -> BoxedStrategy<Vec<FOp>> {
     (
-        pick(&[63u32, 64, 65, 66, 100, 255, 256, 257, 1023, 1024, 1025, 4097]),
+        pick(&[63u32, 64, 65, 66, 100, 255, 256, 257, 1023, 1024, 1025, 1100, 2048, 4097]),
         prop_oneof![Just(1u32), Just(2u32), 3u32..16],
         proptest::collection::vec(any::<u16>(), 1..8),
         pick(&[0u32, 1, 20, 0xFF_FFFF]),
